@@ -407,7 +407,8 @@ func (c *Client) send(dest net.Addr, msg *dhcpv6.Message) (<-chan *dhcpv6.Messag
 
 	ch := make(chan *dhcpv6.Message, c.bufferCap)
 	done := make(chan struct{})
-	c.pending[msg.TransactionID] = &pendingCh{done: done, ch: ch}
+	entry := &pendingCh{done: done, ch: ch}
+	c.pending[msg.TransactionID] = entry
 	c.pendingMu.Unlock()
 
 	cancel := func() {
@@ -420,7 +421,10 @@ func (c *Client) send(dest net.Addr, msg *dhcpv6.Message) (<-chan *dhcpv6.Messag
 		close(done)
 
 		c.pendingMu.Lock()
-		if p, ok := c.pending[msg.TransactionID]; ok {
+		// Only remove our own registration: receiveLoop may already have
+		// removed it (it does so when it finds done closed), and another
+		// call may have registered the same transaction ID since.
+		if p, ok := c.pending[msg.TransactionID]; ok && p == entry {
 			close(p.ch)
 			delete(c.pending, msg.TransactionID)
 		}
